@@ -2,10 +2,199 @@
 // ---- appended by /verif/native/oracle.py (scratch copy only) ----
 #[cfg(test)]
 pub(crate) mod verif_probe {
+    //! End-to-end demonstration harness: real Client::startup / Client::handle over in-memory sockets, a real
+    //! one-connection transaction-mode pool, and a scripted in-process "PostgreSQL" on loopback that tracks
+    //! transaction state, one session variable and prepared statements per backend connection.
     #[allow(unused_imports)]
     use super::*;
-    use serde_json::Value;
-    pub(crate) fn handle(_op: &str, _v: &Value) -> Option<Value> {
-        None
+    use crate::client::Client;
+    use crate::config::AuthType;
+    use crate::messages::{command_complete, data_row, ready_for_query, row_description, server_parameter_message, simple_query, DataType};
+    use bytes::{BufMut, BytesMut};
+    use serde_json::{json, Value};
+    use tokio::io::{duplex, split, AsyncReadExt, AsyncWriteExt, DuplexStream};
+    use tokio::net::TcpListener;
+    use tokio::task::JoinHandle;
+    use tokio::time::{timeout, Duration};
+
+    fn unhex(s: &str) -> Vec<u8> {
+        (0..s.len() / 2).map(|i| u8::from_str_radix(&s[2 * i..2 * i + 2], 16).unwrap()).collect()
+    }
+
+    async fn fake_postgres(listener: TcpListener) {
+        let mut backend_id = 0;
+        loop {
+            let (mut sock, _) = match listener.accept().await { Ok(c) => c, Err(_) => return };
+            backend_id += 1;
+            tokio::spawn(async move {
+                let len = match sock.read_i32().await { Ok(l) => l, Err(_) => return };
+                let mut startup = vec![0u8; len as usize - 4];
+                if sock.read_exact(&mut startup).await.is_err() { return; }
+                let mut out = BytesMut::new();
+                out.put_u8(b'R'); out.put_i32(8); out.put_i32(0);
+                out.put(server_parameter_message("server_version", "14.0"));
+                out.put_u8(b'K'); out.put_i32(12); out.put_i32(backend_id); out.put_i32(1234);
+                out.put(ready_for_query(false));
+                if sock.write_all(&out).await.is_err() { return; }
+                let mut in_transaction = false;
+                let mut guc = String::from("default");
+                loop {
+                    let code = match sock.read_u8().await { Ok(c) => c, Err(_) => return };
+                    let len = match sock.read_i32().await { Ok(l) => l, Err(_) => return };
+                    let mut body = vec![0u8; (len as usize).saturating_sub(4)];
+                    if sock.read_exact(&mut body).await.is_err() { return; }
+                    if code == b'X' { return; }
+                    if code != b'Q' { continue; }
+                    let query = String::from_utf8_lossy(&body[..body.len().saturating_sub(1)]).to_ascii_uppercase();
+                    let mut out = BytesMut::new();
+                    for stmt in query.split(';') {
+                        let stmt = stmt.trim();
+                        if stmt.is_empty() { continue; }
+                        if stmt.starts_with("BEGIN") { in_transaction = true; out.put(command_complete("BEGIN")); }
+                        else if stmt.starts_with("ROLLBACK") || stmt.starts_with("COMMIT") { in_transaction = false; out.put(command_complete("ROLLBACK")); }
+                        else if stmt.starts_with("SET X TO ") { guc = stmt[9..].to_string(); out.put(command_complete("SET")); }
+                        else if stmt.starts_with("RESET ALL") { guc = String::from("default"); out.put(command_complete("RESET")); }
+                        else if stmt.starts_with("SELECT") {
+                            out.put(row_description(&vec![("in_transaction", DataType::Text), ("x", DataType::Text), ("backend", DataType::Text)]));
+                            out.put(data_row(&vec![in_transaction.to_string(), guc.clone(), backend_id.to_string()]));
+                            out.put(command_complete("SELECT 1"));
+                        } else { out.put(command_complete("OK")); }
+                    }
+                    out.put(ready_for_query(in_transaction));
+                    if sock.write_all(&out).await.is_err() { return; }
+                }
+            });
+        }
+    }
+
+    fn install_pool(db: &str, usern: &str, port: u16, client_server_map: ClientServerMap) {
+        let user = User { username: usern.to_string(), password: None, auth_type: AuthType::Trust, pool_size: 1, ..User::default() };
+        let address = Address { host: "127.0.0.1".to_string(), port, role: Role::Primary, database: db.to_string(),
+                                username: usern.to_string(), pool_name: db.to_string(), ..Address::default() };
+        let auth_hash = Arc::new(RwLock::new(None));
+        let manager = ServerPool::new(address.clone(), user.clone(), db, client_server_map, auth_hash.clone(), None, true, false, 0);
+        let bb8_pool = Pool::builder().max_size(1).connection_timeout(std::time::Duration::from_millis(2000))
+            .test_on_check_out(false).build_unchecked(manager);
+        let pool = ConnectionPool {
+            databases: Arc::new(vec![vec![bb8_pool]]),
+            addresses: Arc::new(vec![vec![address]]),
+            banlist: Arc::new(RwLock::new(vec![HashMap::new()])),
+            config_hash: 0,
+            original_server_parameters: Arc::new(RwLock::new(ServerParameters::new())),
+            auth_hash,
+            settings: Arc::new(PoolSettings { pool_mode: PoolMode::Transaction, user, db: db.to_string(), ..PoolSettings::default() }),
+            validated: Arc::new(AtomicBool::new(false)),
+            paused: Arc::new(AtomicBool::new(false)),
+            paused_waiter: Arc::new(Notify::new()),
+            prepared_statement_cache: None,
+        };
+        let mut pools = (*(*POOLS.load())).clone();
+        pools.insert(PoolIdentifier::new(db, usern), pool);
+        POOLS.store(Arc::new(pools));
+    }
+
+    fn connect_client(db: &str, usern: &str, client_server_map: ClientServerMap, shutdown: &tokio::sync::broadcast::Sender<()>)
+        -> (DuplexStream, JoinHandle<Result<(), Error>>) {
+        let (client_end, pgcat_end) = duplex(1 << 16);
+        let (read, write) = split(pgcat_end);
+        let shutdown_rx = shutdown.subscribe();
+        let mut startup = BytesMut::new();
+        startup.put_slice(b"user\0"); startup.put_slice(usern.as_bytes());
+        startup.put_slice(b"\0database\0"); startup.put_slice(db.as_bytes()); startup.put_slice(b"\0\0");
+        let task = tokio::spawn(async move {
+            let mut client = Client::startup(read, write, "127.0.0.1:55555".parse().unwrap(), startup, client_server_map, shutdown_rx, false).await?;
+            client.handle().await
+        });
+        (client_end, task)
+    }
+
+    async fn read_until_ready(stream: &mut DuplexStream) -> Option<Vec<(u8, Vec<u8>)>> {
+        let mut messages = Vec::new();
+        loop {
+            let code = stream.read_u8().await.ok()?;
+            let len = stream.read_i32().await.ok()?;
+            let mut body = vec![0u8; len as usize - 4];
+            stream.read_exact(&mut body).await.ok()?;
+            messages.push((code, body));
+            if code == b'Z' { return Some(messages); }
+        }
+    }
+
+    fn row_of(reply: &Vec<(u8, Vec<u8>)>) -> Vec<String> {
+        // DataRow: int16 ncols, then (int32 len, bytes)*
+        let mut out = vec![];
+        if let Some((_, body)) = reply.iter().find(|(c, _)| *c == b'D') {
+            let n = i16::from_be_bytes([body[0], body[1]]) as usize;
+            let mut p = 2;
+            for _ in 0..n {
+                let l = i32::from_be_bytes([body[p], body[p + 1], body[p + 2], body[p + 3]]) as usize;
+                p += 4;
+                out.push(String::from_utf8_lossy(&body[p..p + l]).to_string());
+                p += l;
+            }
+        }
+        out
+    }
+
+    /// Client A runs `prep` queries (simple protocol), then sends the raw `trigger` bytes and is awaited;
+    /// client B then runs SELECT and reports what it saw.
+    async fn scenario(v: Value) -> Value {
+        let tag = format!("{}", std::time::SystemTime::now().duration_since(std::time::UNIX_EPOCH).unwrap().as_nanos());
+        let db = format!("verif_db_{}", tag);
+        let usern = "verif_user".to_string();
+        let listener = TcpListener::bind("127.0.0.1:0").await.unwrap();
+        let port = listener.local_addr().unwrap().port();
+        tokio::spawn(fake_postgres(listener));
+        let client_server_map: ClientServerMap = Arc::new(Mutex::new(HashMap::new()));
+        let (shutdown_tx, _keep) = tokio::sync::broadcast::channel::<()>(1);
+        install_pool(&db, &usern, port, client_server_map.clone());
+
+        let (mut a, a_task) = connect_client(&db, &usern, client_server_map.clone(), &shutdown_tx);
+        if read_until_ready(&mut a).await.is_none() { return json!({"error": "client A could not log in"}); }
+        let mut a_last_status = String::new();
+        let mut a_backend = String::new();
+        for q in v["prep"].as_array().unwrap() {
+            a.write_all(&simple_query(q.as_str().unwrap())).await.unwrap();
+            match read_until_ready(&mut a).await {
+                Some(reply) => {
+                    a_last_status = (reply.last().unwrap().1[0] as char).to_string();
+                    let r = row_of(&reply);
+                    if r.len() == 3 { a_backend = r[2].clone(); }
+                }
+                None => return json!({"error": "client A lost during prep"}),
+            }
+        }
+        let trig = unhex(v["trigger_hex"].as_str().unwrap_or(""));
+        if !trig.is_empty() { let _ = a.write_all(&trig).await; }
+        if v.get("a_disconnects").and_then(|x| x.as_bool()).unwrap_or(false) { drop(a); } 
+        let a_result = match timeout(Duration::from_secs(5), a_task).await {
+            Ok(Ok(Ok(()))) => "ok".to_string(),
+            Ok(Ok(Err(e))) => format!("err: {:?}", e),
+            Ok(Err(e)) => if e.is_panic() { "panic".to_string() } else { "cancelled".to_string() },
+            Err(_) => "still-running".to_string(),
+        };
+        let (mut b, _b_task) = connect_client(&db, &usern, client_server_map.clone(), &shutdown_tx);
+        if read_until_ready(&mut b).await.is_none() { return json!({"error": "client B could not log in", "a_result": a_result}); }
+        b.write_all(&simple_query("SELECT 1")).await.unwrap();
+        let reply = match timeout(Duration::from_secs(5), read_until_ready(&mut b)).await {
+            Ok(Some(r)) => r,
+            _ => return json!({"a_result": a_result, "b": "no reply"}),
+        };
+        let row = row_of(&reply);
+        json!({"a_result": a_result, "a_last_status": a_last_status, "a_backend": a_backend,
+               "b_in_transaction": row.get(0), "b_x": row.get(1), "b_backend": row.get(2),
+               "b_status": (reply.last().unwrap().1[0] as char).to_string()})
+    }
+
+    pub(crate) fn handle(op: &str, v: &Value) -> Option<Value> {
+        match op {
+            "e2e_handover" => {
+                let rt = tokio::runtime::Builder::new_multi_thread().worker_threads(2).enable_all().build().unwrap();
+                let vv = v.clone();
+                let r = rt.block_on(async move { timeout(Duration::from_secs(30), scenario(vv)).await });
+                Some(match r { Ok(x) => x, Err(_) => json!({"error": "scenario timed out"}) })
+            }
+            _ => None,
+        }
     }
 }
